@@ -199,7 +199,7 @@ def gen_c10(seed, size="quick"):
     dom = r.choice([8, 15, 30])
     edb(t, r, r.choice([20, 60, 150]) if size == "quick" else r.choice([60, 150, 300]), dom)
     t.meta["choice"] = []
-    kinds = r.sample(["single", "two", "composite", "tree", "recursive_pick", "agg", "agg2", "idx", "idx2", "exists", "nonprefix", "arith", "withfacts", "rec3", "tree_helper", "pingpong", "repeat", "inline_body", "subkey", "twin"],
+    kinds = r.sample(["single", "two", "composite", "tree", "recursive_pick", "agg", "agg2", "idx", "idx2", "exists", "nonprefix", "arith", "withfacts", "rec3", "tree_helper", "pingpong", "repeat", "inline_body", "subkey", "twin", "gap"],
                      r.randrange(1, 4))
     for kind in kinds:
         if kind == "nonprefix":
@@ -242,6 +242,14 @@ def gen_c10(seed, size="quick"):
             t.meta["choice"].append({"rel": "otz", "keys": [[0]]})
             t.meta.setdefault("downstream", []).append("otm")
             t.outputs += ["otz", "otm"]
+        elif kind == "gap":
+            # an all-wildcard atom first (it takes a tuple level but no scan), then two or three joined atoms
+            t.decls.append(".decl pgap(x:number,y:number) choice-domain x")
+            t.rules.append({"head": ("pgap", [V("x"), V("y")]), "body": [("atom", "n1", [U]), ("atom", "e1", [V("x"), V("w")]), ("atom", "e1", [V("w"), V("y")])]})
+            t.rules.append({"head": ("pgap", [V("x"), V("b")]),
+                            "body": [("atom", "e1", [V("x"), V("w")]), ("atom", "e2", [U, U, U]), ("atom", "ew", [V("w"), V("b"), U]), ("cmp", "<", V("x"), C(4))]})
+            t.meta["choice"].append({"rel": "pgap", "keys": [[0]]})
+            t.outputs.append("pgap")
         elif kind == "subkey":
             # a composite key declared before one of its sub-keys (and the other way round), non-recursive and recursive
             order = r.choice(["(k,a), k", "k, (k,a)", "(k,a,b), (a,b)", "(k,a), a, k"])
@@ -423,7 +431,7 @@ def gen_c11(seed, size="quick", always=()):
     dom = r.choice([6, 10, 16])
     edb(t, r, r.choice([15, 40, 90]) if size == "quick" else r.choice([40, 90, 200]), dom)
     t.meta["subsumed"] = []
-    kinds = r.sample(["shortest", "pareto", "latest", "shortest2", "countdown", "via_helper", "merge", "loaded", "loaded_rec", "infacts", "guarded", "const_head", "secondary", "secondary3", "mutual_sub"],
+    kinds = r.sample(["shortest", "pareto", "latest", "shortest2", "countdown", "via_helper", "merge", "loaded", "loaded_rec", "infacts", "guarded", "const_head", "secondary", "secondary3", "mutual_sub", "inline_order"],
                      r.randrange(1, 3))
     kinds = list(always) + [k for k in kinds if k not in always]
     for kind in kinds:
@@ -511,6 +519,18 @@ def gen_c11(seed, size="quick", always=()):
                 t.extra_text.append("%s(x,d1) <= %s(x,d2) :- d2 < d1." % (nm, nm))
                 t.meta["subsumed"].append({"rel": nm, "dom": "lt1", "monotone": True})
                 t.outputs.append(nm)
+        elif kind == "inline_order":
+            # the dominance condition goes through an inlined relation (after inlining it is a plain constraint)
+            bound = r.choice([12, 20])
+            t.decls.append(".decl iso(x:number,d:number) btree_delete")
+            t.decls.append(".decl cheaper(a:number,b:number) inline")
+            t.extra_text.append("cheaper(a,b) :- a < b.")
+            t.rules.append({"head": ("iso", [V("x"), C(0)]), "body": [("atom", "n1", [V("x")]), ("cmp", "<", V("x"), C(3))]})
+            t.rules.append({"head": ("iso", [V("y"), ADD(V("d"), V("w"))]),
+                            "body": [("atom", "iso", [V("x"), V("d")]), ("atom", "ew", [V("x"), V("y"), V("w")]), ("cmp", "<", ADD(V("d"), V("w")), C(bound))]})
+            t.extra_text.append("iso(x,d1) <= iso(x,d2) :- cheaper(d2,d1).")
+            t.meta["subsumed"].append({"rel": "iso", "dom": "lt1", "monotone": True})
+            t.outputs.append("iso")
         elif kind == "secondary3":
             # cost-first shortest paths read by three later rules through three different indexes
             bound = r.choice([10, 16])
